@@ -1127,8 +1127,51 @@ fn show_tl(i: &Item) -> String {
     }
 }
 
+/// the `TableLike` view of every table-like node agrees with itself: what `iter` shows is what `contains_key` / `get` /
+/// `get_key_value` / `key` find, `len` counts it, and a key that is not there is not found
+fn tl_consistent(i: &Item) -> Result<(), String> {
+    if let Some(t) = i.as_table_like() {
+        let mut n = 0usize;
+        for (k, x) in t.iter() {
+            n += 1;
+            if !t.contains_key(k) || t.get(k).is_none() || t.get_key_value(k).is_none() || t.key(k).is_none() {
+                return Err(format!(
+                    "key:{}:contains_key={}:get={}:get_key_value={}:key={}",
+                    util::hex(k.as_bytes()), t.contains_key(k), t.get(k).is_some(), t.get_key_value(k).is_some(), t.key(k).is_some()
+                ));
+            }
+            tl_consistent(x)?;
+        }
+        if t.len() != n || t.is_empty() != (n == 0) {
+            return Err(format!("len={}:iter={}:is_empty={}", t.len(), n, t.is_empty()));
+        }
+        let absent = "\u{1}never a key\u{1}";
+        if t.contains_key(absent) || t.get(absent).is_some() {
+            return Err("absent-key-found".into());
+        }
+    }
+    match i {
+        Item::ArrayOfTables(a) => {
+            for t in a.iter() {
+                tl_consistent(&Item::Table(t.clone()))?;
+            }
+        }
+        Item::Value(Value::Array(a)) => {
+            for v in a.iter() {
+                tl_consistent(&Item::Value(v.clone()))?;
+            }
+        }
+        _ => {}
+    }
+    Ok(())
+}
+
 fn doc_obs(d: &mut DocumentMut) -> String {
     let guard = |f: &dyn Fn() -> String| catch_unwind(AssertUnwindSafe(f)).unwrap_or_else(|_| "P".to_string());
+    let tl = guard(&|| match tl_consistent(d.as_item()) {
+        Ok(()) => "ok".to_string(),
+        Err(e) => format!("BAD:{e}"),
+    });
     let view = guard(&|| show_tl(d.as_item()));
     // the same tree through the inherent read API (InlineTable::iter ...)
     let built = guard(&|| match d.as_item() {
@@ -1137,13 +1180,13 @@ fn doc_obs(d: &mut DocumentMut) -> String {
     });
     let text = catch_unwind(AssertUnwindSafe(|| d.to_string()));
     match text {
-        Err(_) => format!("view={view} built={built} text=P"),
+        Err(_) => format!("view={view} built={built} text=P tl={tl}"),
         Ok(s) => {
             let (parse, got) = match s.parse::<DocumentMut>() {
                 Ok(d2) => ("ok", verif_harness::tree::show_table(d2.as_table())),
                 Err(_) => ("ERR", "-".into()),
             };
-            format!("view={view} built={built} text={} parse={parse} got={got}", util::hex(s.as_bytes()))
+            format!("view={view} built={built} text={} parse={parse} got={got} tl={tl}", util::hex(s.as_bytes()))
         }
     }
 }
